@@ -16,9 +16,9 @@ PROPS["C14"] = dict(
          "burn); ~8% malformed (bad / reserved class ids, bad token ids, bad addresses, over-long URI, data that is not JSON); "
          "non-trivial = on some object (a token; a class for hand-over; a mint-restricted class for minting) a non-entitled "
          "actor attempted an operation and the entitled one succeeded with one; distinct = by hash of the history",
-    codes={1: "nft/owner-not-unique", 2: "nft/supply-tokens-balances-differ", 3: "nft/owner-authority",
-           4: "nft/mint-restriction-or-id-reuse", 5: "nft/update-restricted-metadata-changed", 6: "nft/class-authority",
-           7: "nft/failed-step-changed-state"},
+    codes={1: "nft.owner-not-unique", 2: "nft.supply-tokens-balances-differ", 3: "nft.owner-authority",
+           4: "nft.mint-restriction-or-id-reuse", 5: "nft.update-restricted-metadata-changed", 6: "nft.class-authority",
+           7: "nft.failed-step-changed-state"},
     explain={1: "a token is listed twice, has no valid owner, is listed under somebody who is not its owner, or belongs to no class",
              2: "the reported supply of a class differs from the number of its tokens or from the sum of the owners' balances (or the module's own invariant is broken)",
              3: "a transfer / edit / burn succeeded for somebody who is not the owner or did something other than asked, or a token's owner / metadata changed / the token disappeared without its owner's doing",
